@@ -282,10 +282,14 @@ class Interp:
                 self.assign(t, val, env, st)
         elif isinstance(st, ast.AugAssign):
             rhs = self.ev(st.value, env, depth)
-            cur = self.ev(st.target, env, depth) if isinstance(st.target, (ast.Name, ast.Attribute)) else UNKNOWN
+            cur = self.ev(st.target, env, depth) if isinstance(st.target, (ast.Name, ast.Attribute, ast.Subscript)) else UNKNOWN
             new = UNKNOWN
             if _is_num(cur) and _is_num(rhs) and isinstance(st.op, (ast.Add, ast.Sub)):
                 new = cur + rhs if isinstance(st.op, ast.Add) else cur - rhs
+            elif _is_num(cur) and _is_num(rhs) and isinstance(st.op, ast.Mult):
+                new = cur * rhs
+            elif _is_num(cur) and _is_num(rhs) and isinstance(st.op, ast.Div) and rhs != 0:
+                new = cur / rhs
             elif isinstance(cur, list) and isinstance(rhs, list) and isinstance(st.op, ast.Add):
                 new = cur + rhs
             if isinstance(st.target, ast.Name):
@@ -301,6 +305,10 @@ class Interp:
             raise _Return(self.ev(st.value, env, depth) if st.value is not None else None)
         elif isinstance(st, (ast.For, ast.AsyncFor)):
             it = self.ev(st.iter, env, depth)
+            if isinstance(it, dict):
+                it = list(it.keys())
+            elif isinstance(it, set):
+                it = sorted(it, key=repr)
             items = it if isinstance(it, list) else [Sym(f"elem:{norm(st.iter)[:30]}")]
             for x in items:
                 self.assign(st.target, x, env, st)
@@ -506,8 +514,7 @@ class Interp:
                 return (l == r) if isinstance(op, ast.Eq) else (l != r)
             if isinstance(op, (ast.Eq, ast.NotEq)) and not (l is UNKNOWN or r is UNKNOWN) and not isinstance(l, Sym) and not isinstance(r, Sym):
                 return (l == r) if isinstance(op, ast.Eq) else (l != r)
-            if isinstance(op, (ast.Lt, ast.LtE, ast.Gt, ast.GtE)) and isinstance(l, (int, float)) and isinstance(r, (int, float)) \
-                    and not isinstance(l, bool) and not isinstance(r, bool):
+            if isinstance(op, (ast.Lt, ast.LtE, ast.Gt, ast.GtE)) and _is_num(l) and _is_num(r):
                 return {ast.Lt: l < r, ast.LtE: l <= r, ast.Gt: l > r, ast.GtE: l >= r}[type(op)]
             if isinstance(op, (ast.In, ast.NotIn)) and isinstance(r, (list, set, dict)) and l is not UNKNOWN:
                 key = self._hashable(l) if isinstance(r, (set, dict)) else l
@@ -569,8 +576,8 @@ class Interp:
                     and all(x is not UNKNOWN for x in base):
                 self.trace.append(Effect("raise", f"IndexError: index {idx} of a list of length {len(base)}", node=e))
                 raise _Return(UNKNOWN)
-            if isinstance(base, dict) and isinstance(idx, (str, int)):
-                return base.get(idx, UNKNOWN)
+            if isinstance(base, dict) and idx is not UNKNOWN:
+                return base.get(self._hashable(idx), UNKNOWN)
             if isinstance(base, Obj) and isinstance(idx, int) and not isinstance(idx, bool) and 0 <= idx < len(base.fields):
                 return list(base.fields.values())[idx]
             if isinstance(base, Sym):
@@ -971,7 +978,8 @@ def _is_generator(node: ast.AST) -> bool:
 
 
 def _is_num(v: Any) -> bool:
-    return isinstance(v, (int, float)) and not isinstance(v, bool)
+    from fractions import Fraction
+    return isinstance(v, (int, float, Fraction)) and not isinstance(v, bool)
 
 
 def _is_dataclass(ci) -> bool:
